@@ -677,6 +677,104 @@ def t1_variant(chk, name, rows, month, day, nday, param_in, out_dir):
     raise KeyError(name)
 
 
+def judge_row_only(viol, case, precision, rr, wr, w_rural, d, hum):
+    """the written-row part of the oracle where no records are observable: stamp and pressure unchanged, written
+    (T, RH, P) imply ratio * the rural humidity ratio within the rounding of the written digits"""
+    if wr[1:4] != rr[1:4] or wr[9] != rr[9]:
+        viol('written stamp / pressure column unchanged', case, wr[1:4] + [wr[9]], rr[1:4] + [rr[9]])
+        return
+    try:
+        wT, wRH, rP = float(wr[6]), float(wr[8]), float(rr[9])
+        lo, hi = hum(wRH - d, wT - d, rP), hum(wRH + d, wT + d, rP)
+    except Exception as e:  # noqa: BLE001
+        viol('written humidity fields parse and lie in the routine domain', case, '%s: %s (%r)' % (
+            type(e).__name__, e, wr[6:10]), 'numbers')
+        return
+    target = RATIO * w_rural
+    if not (lo <= target * (1 + 1e-12) and target * (1 - 1e-12) <= hi):
+        viol('written (T,RH,P) imply the rural humidity ratio (moisture conserved)', case,
+             'hum(written RH=%s, T=%s, P=%s) in [%.12g, %.12g]' % (wr[8], wr[6], rr[9], lo, hi),
+             'contains ratio*hum(rural RH=%s, T=%s, P=%s) = %.12g' % (rr[8], rr[6], rr[9], target))
+
+
+def judge_written(chk, viol, tag, precision, rural, written, model, first, n_rec):
+    """The C09 oracle on one finished run: `rural` / `written` are the parsed rural and written files, `model` the
+    finished model or an object with the same attributes rebuilt from the records of another interpreter
+    (u1_util.Result.modellike()), or None when the route shows no records (command line): then only the written rows
+    are judged. Returns the largest relative deviation of the implied humidity ratio from ratio * rural."""
+    import uwg.psychrometrics as up
+    psy, hum = up.psychrometrics, up.hum_from_rhum_temp
+    worst = 0.0
+    d = 0.5 * 10.0 ** (-precision) * (1 + 1e-9) + 1e-12
+    for n in range(n_rec):
+        case = dict(tag, record=n, file_row=first + n)
+        rr, wr = rural[first + n], written[first + n]
+        rT, rRH, rP = float(rr[6]), float(rr[8]), float(rr[9])
+        w_rural = hum(rRH, rT, rP)
+        if model is None:
+            judge_row_only(viol, case, precision, rr, wr, w_rural, d, hum)
+            continue
+        ucm = model.UCMData[n]
+        if ucm is None:
+            viol('every hour of the window has a record', case, None, 'a record')
+            continue
+        # (a) driver: canHum is the rural humidity ratio of this row, bit for bit
+        if not (ucm.canHum == w_rural == model.weather.staHum[n]):
+            viol('driver: canHum = staHum(rural row) (written_rh_consistent)', case,
+                 'canHum=%r staHum=%r hum(rural row)=%r' % (ucm.canHum, model.weather.staHum[n],
+                                                            w_rural),
+                 'bit-identical')
+        # (b) recorded RH / Tdp are psychrometrics(canTemp, canHum, rural pressure)
+        ref = psy(ucm.canTemp, w_rural, rP)
+        if not (ucm.canRHum == ref[2] and ucm.Tdp == ref[4]):
+            viol('record: (canRHum, Tdp) = psychrometrics(canTemp, canHum, pres)', case,
+                 'canRHum=%r Tdp=%r' % (ucm.canRHum, ucm.Tdp), 'phi=%r Tdp=%r' % (ref[2], ref[4]))
+        # (c) the WRITTEN row: pressure column untouched; dew point text = formatted correlation
+        #     value of the rural humidity ratio; written (T, RH, P) imply ratio * rural w
+        want_t = '{0:.{1}f}'.format(ucm.canTemp - 273.15, precision)
+        if wr[6] != want_t or wr[1:4] != rr[1:4]:
+            viol('the result of record n is written to the rural row record n was computed from (row '
+                 'timeInitial + n of the file as read by Weather)', case,
+                 {'stamp': wr[1:4], 'dry bulb': wr[6]}, {'stamp': rr[1:4], 'dry bulb': want_t})
+            continue
+        if wr[9] != rr[9]:
+            viol('written pressure column unchanged', case, wr[9], rr[9])
+        for nm, val in (('dry bulb', ucm.canTemp - 273.15), ('dew point', ref[4])):
+            if -0.1 < val < 0 and precision >= 2:
+                key = 'simulated_hours_with_%s_in_(-0.1,0)_at_precision>=2' % nm.replace(' ', '_')
+                chk.measurements[key] = chk.measurements.get(key, 0) + 1
+        want_tdp = '{0:.{1}f}'.format(ref[4], precision)
+        if wr[7] != want_tdp:
+            viol('written dew point = Tdp(rural humidity ratio, P)', case, wr[7], want_tdp)
+        try:
+            wT, wRH = float(wr[6]), float(wr[8])
+            lo = hum(wRH - d, wT - d, rP)
+            hi = hum(wRH + d, wT + d, rP)
+            mid = hum(wRH, wT, rP)
+        except Exception as e:
+            viol('written humidity fields parse and lie in the routine domain', case,
+                 '%s: %s (%r)' % (type(e).__name__, e, wr[6:10]), 'numbers')
+            continue
+        target = RATIO * w_rural
+        worst = max(worst, abs(mid / target - 1.0))
+        if not (lo <= target * (1 + 1e-12) and target * (1 - 1e-12) <= hi):
+            viol('written (T,RH,P) imply the rural humidity ratio (moisture conserved)', case,
+                 'hum(written RH=%s, T=%s, P=%s) in [%.12g, %.12g]' % (wr[8], wr[6], rr[9], lo, hi),
+                 'contains ratio*hum(rural RH=%s, T=%s, P=%s) = %.12g' % (rr[8], rr[6], rr[9],
+                                                                          target))
+    # rows of hours that were not simulated: their humidity fields must be the rural ones (a result written to
+    # another row than the one it was computed from shows here and in (c) above)
+    for i in range(8, min(len(rural), len(written))):
+        if not (first <= i < first + n_rec) and (written[i][6:10] != rural[i][6:10] or written[i][1:4] != rural[i][1:4]):
+            viol('rows outside the simulated window keep their rural dry bulb / dew point / RH / pressure',
+                 dict(tag, file_row=i, stamp=rural[i][1:4], window_rows=[first, first + n_rec - 1]),
+                 written[i][6:10], rural[i][6:10])
+            break
+    if len(written) != len(rural):
+        viol('written file has as many rows as the rural file', dict(tag), len(written), len(rural))
+    return worst
+
+
 def simulate_and_check(chk, precision, month, day, nday, param=SGP_PARAM, epw=SGP_EPW, variant=None, stock=None):
     """variant: header / leap-file variant of s1_util applied to the rural file; stock: key of STOCKS."""
     from uwg import UWG
@@ -754,69 +852,126 @@ def simulate_and_check(chk, precision, month, day, nday, param=SGP_PARAM, epw=SG
         rural = list(csv.reader(f))
     n_rec = len(model.UCMData)
     first = model.simTime.timeInitial          # index into the file's rows (8 header rows)
-    d = 0.5 * 10.0 ** (-precision) * (1 + 1e-9) + 1e-12
-    for n in range(n_rec):
-        case = dict(tag, record=n, file_row=first + n)
-        rr, wr = rural[first + n], written[first + n]
-        rT, rRH, rP = float(rr[6]), float(rr[8]), float(rr[9])
-        ucm = model.UCMData[n]
-        w_rural = hum(rRH, rT, rP)
-        # (a) driver: canHum is the rural humidity ratio of this row, bit for bit
-        if not (ucm.canHum == w_rural == model.weather.staHum[n]):
-            viol('driver: canHum = staHum(rural row) (written_rh_consistent)', case,
-                 'canHum=%r staHum=%r hum(rural row)=%r' % (ucm.canHum, model.weather.staHum[n],
-                                                            w_rural),
-                 'bit-identical')
-        # (b) recorded RH / Tdp are psychrometrics(canTemp, canHum, rural pressure)
-        ref = psy(ucm.canTemp, w_rural, rP)
-        if not (ucm.canRHum == ref[2] and ucm.Tdp == ref[4]):
-            viol('record: (canRHum, Tdp) = psychrometrics(canTemp, canHum, pres)', case,
-                 'canRHum=%r Tdp=%r' % (ucm.canRHum, ucm.Tdp), 'phi=%r Tdp=%r' % (ref[2], ref[4]))
-        # (c) the WRITTEN row: pressure column untouched; dew point text = formatted correlation
-        #     value of the rural humidity ratio; written (T, RH, P) imply ratio * rural w
-        want_t = '{0:.{1}f}'.format(ucm.canTemp - 273.15, precision)
-        if wr[6] != want_t or wr[1:4] != rr[1:4]:
-            viol('the result of record n is written to the rural row record n was computed from (row '
-                 'timeInitial + n of the file as read by Weather)', case,
-                 {'stamp': wr[1:4], 'dry bulb': wr[6]}, {'stamp': rr[1:4], 'dry bulb': want_t})
-            continue
-        if wr[9] != rr[9]:
-            viol('written pressure column unchanged', case, wr[9], rr[9])
-        for nm, val in (('dry bulb', ucm.canTemp - 273.15), ('dew point', ref[4])):
-            if -0.1 < val < 0 and precision >= 2:
-                key = 'simulated_hours_with_%s_in_(-0.1,0)_at_precision>=2' % nm.replace(' ', '_')
-                chk.measurements[key] = chk.measurements.get(key, 0) + 1
-        want_tdp = '{0:.{1}f}'.format(ref[4], precision)
-        if wr[7] != want_tdp:
-            viol('written dew point = Tdp(rural humidity ratio, P)', case, wr[7], want_tdp)
-        try:
-            wT, wRH = float(wr[6]), float(wr[8])
-            lo = hum(wRH - d, wT - d, rP)
-            hi = hum(wRH + d, wT + d, rP)
-            mid = hum(wRH, wT, rP)
-        except Exception as e:
-            viol('written humidity fields parse and lie in the routine domain', case,
-                 '%s: %s (%r)' % (type(e).__name__, e, wr[6:10]), 'numbers')
-            continue
-        target = RATIO * w_rural
-        worst = max(worst, abs(mid / target - 1.0))
-        if not (lo <= target * (1 + 1e-12) and target * (1 - 1e-12) <= hi):
-            viol('written (T,RH,P) imply the rural humidity ratio (moisture conserved)', case,
-                 'hum(written RH=%s, T=%s, P=%s) in [%.12g, %.12g]' % (wr[8], wr[6], rr[9], lo, hi),
-                 'contains ratio*hum(rural RH=%s, T=%s, P=%s) = %.12g' % (rr[8], rr[6], rr[9],
-                                                                          target))
-    # rows of hours that were not simulated: their humidity fields must be the rural ones (a result written to
-    # another row than the one it was computed from shows here and in (c) above)
-    for i in range(8, min(len(rural), len(written))):
-        if not (first <= i < first + n_rec) and (written[i][6:10] != rural[i][6:10] or written[i][1:4] != rural[i][1:4]):
-            viol('rows outside the simulated window keep their rural dry bulb / dew point / RH / pressure',
-                 dict(tag, file_row=i, stamp=rural[i][1:4], window_rows=[first, first + n_rec - 1]),
-                 written[i][6:10], rural[i][6:10])
-            break
-    if len(written) != len(rural):
-        viol('written file has as many rows as the rural file', dict(tag), len(written), len(rural))
+    worst = judge_written(chk, viol, tag, precision, rural, written, model, first, n_rec)
     shutil.rmtree(out_dir, ignore_errors=True)
     return n_rec, bad, worst
+
+
+# ------------------------------------------------------------------ round 4: circumstances that are not inputs
+def circumstance_runs(chk):
+    """(x1) The same un-stubbed run under the six circumstances of harness/generic.py (through u1_util), every
+    observation judged by judge_written (records where the route shows them, written rows always) and compared with
+    the plain run. (x3) Time steps that are not whole numbers of seconds: whatever the package accepts must keep the
+    moisture of hour n on rural row n (long windows, physics stubbed from outside; records, psychrometrics of the
+    record and write_epw real)."""
+    import csv
+    import u1_util as U1
+    rng = chk.rng
+    thorough = chk.tier == 'thorough'
+    work = os.path.join(chk.work(), 'c09x')
+    os.makedirs(work)
+    counts = {'n': 0, 'bad': 0}
+    seen = {}
+
+    def parse(path):
+        with open(path, newline='', errors='ignore') as f:
+            return list(csv.reader(f))
+
+    def viol_for(label):
+        def viol(what, case, observed, expected):
+            counts['bad'] += 1
+            key = (label, what)
+            seen[key] = seen.get(key, 0) + 1
+            if seen[key] <= 1 and len(seen) <= 4:
+                chk.violation('impl-violation', '%s [%s]' % (what, label), case=case, observed=observed, expected=expected,
+                              how='harness/u1_util.py execute / run_circumstances(spec); harness/props/c09.py judge_written')
+        return viol
+
+    # ---- (x1) --------------------------------------------------------------------------------------------------
+    scen = [(SGP_PARAM, SGP_EPW, rng.randint(1, 12), rng.randint(1, 28), 1)]
+    if thorough:
+        scen += [(TORONTO_PARAM, OTHER_EPW[0], 1, rng.randint(2, 25), 1), (SGP_PARAM, SGP_EPW, 4, rng.randint(1, 28), 4)]
+    br = {}
+    for si, (prm, epw, month, day, prec) in enumerate(scen):
+        epw_in, param_in = find_file(*epw), find_file(*prm)
+        sp = U1.spec(epw_in, attrs=[('month', month), ('day', day), ('nday', 1), ('dtsim', 300)], param=param_in,
+                     outdir=os.path.join(work, 'x1_%d' % si), outname='m.epw', precision=None if prec == 1 else prec)
+        other = U1.spec(epw_in, attrs=[('month', (month % 12) + 1), ('day', 9), ('nday', 1), ('dtsim', 300),
+                                       ('bldheight', 30), ('treecover', 0.3)], param=param_in, outname='other.epw',
+                        label='another model on the same rural file: other window, other canyon')
+        members = U1.ALL if prec == 1 else ('observed', 'DEBUG', 'python -O', 'neighbours', 'caller data')
+        out = U1.run_circumstances(work, sp, other, members=members, tag='x1_%d' % si)
+        plain = out[0][1]
+        rural = parse(epw_in)
+        first = 8 + 24 * U1.doy0(month, day)
+        for nm, r, msgs in out:
+            counts['n'] += 1
+            br[nm] = br.get(nm, 0) + 1
+            tag = {'circumstance': nm, 'route': r.route, 'epw_precision': prec, 'month': month, 'day': day, 'nday': 1,
+                   'epw': os.path.basename(epw[-1]), 'param': os.path.basename(param_in)}
+            viol = viol_for(nm)
+            for m_ in msgs:
+                viol('no trace in the caller\'s data / class-level state', tag, m_, 'none')
+            if r.error:
+                viol('the run completes', tag, '%s (%s)' % (r.error, r.stage), 'a written file')
+                continue
+            model = r.model if r.model is not None else (r.modellike() if r.records is not None else None)
+            judge_written(chk, viol, tag, prec, rural, parse(r.file), model, first, 24)
+            ap = U1.against_plain(U1.reference_for(out, nm), r)
+            if ap:
+                viol('records and written bytes equal those of the plain run', tag, '%s: %r' % (ap[0], ap[1]), ap[2])
+    n1, b1 = counts['n'], counts['bad']
+    chk.direct('moisture oracle under circumstances (observers, DEBUG, python -O, command line, neighbours, caller data)',
+               n1, n1,
+               'an un-stubbed generate; simulate; write_epw (Singapore, random day; thorough: also Toronto in January and '
+               'epw_precision 4) run plainly; while repr / str / ToString of the model and of every reachable uwg object is '
+               'taken after construction, after generate(), every 41st step, after simulate() and after write_epw(); with '
+               'DEBUG logging on the root and uwg loggers; in a fresh `python -O` interpreter; through `python [-O] -m uwg '
+               'simulate model|param` (the JSON also with whole numbers typed as ints); interleaved with another model on the same rural file; from the caller\'s own '
+               'dictionary edited in place after generate(). Each observation is judged like every simulated window '
+               '(canHum = staHum of its row bit for bit, recorded RH / Tdp = psychrometrics(canTemp, canHum, P), written dew '
+               'point text, ratio * w_rural inside the interval of the written RH / T; for the command line the written '
+               'rows only) and must equal the plain run in records and bytes',
+               mismatches=b1, branches=br)
+
+    # ---- (x3) --------------------------------------------------------------------------------------------------
+    counts['n'] = counts['bad'] = 0
+    odd = [(112.5, 11), (7.5, 1), (22.5, 2), (12.5, 1), (300.0, 1), (0.5, 1)]
+    if thorough:
+        odd += [(37.5, 4), (56.25, 10), (2.5, 1), (1800.5, 1), (187.5, 9), (112.5, 20)]
+    br3 = {}
+    epw_in, param_in = find_file(*SGP_EPW), find_file(*SGP_PARAM)
+    rural = parse(epw_in)
+    for i, (dtv, nd) in enumerate(odd):
+        month, day = rng.choice([(m_, d_) for m_ in range(1, 13) for d_ in (1, 9, 17)
+                                 if U1.doy0(m_, d_) + nd <= 364])
+        sp = U1.spec(epw_in, attrs=[('month', month), ('day', day), ('nday', nd), ('dtsim', dtv)], param=param_in,
+                     outdir=os.path.join(work, 'x3'), outname='d%d.epw' % i, precision=4, stub=True)
+        sp['max_steps'] = 40000 if not thorough else 400000
+        r = U1.execute(sp)
+        counts['n'] += 1
+        if r.error and r.stage in ('construct', 'generate'):
+            kind = 'refused' if r.error_class != 'TooLong' else 'accepted, too many steps for this tier'
+            br3[kind] = br3.get(kind, 0) + 1
+            continue
+        br3['accepted'] = br3.get('accepted', 0) + 1
+        tag = {'dtsim': dtv, 'time step in force (simTime.dt)': (r.info or {}).get('simdt'), 'month': month, 'day': day,
+               'nday': nd, 'epw_precision': 4, 'physics': 'stubbed from outside (loop, records, write_epw real)',
+               'epw': os.path.basename(SGP_EPW[-1]), 'param': os.path.basename(param_in)}
+        viol = viol_for('dtsim = %r' % dtv)
+        if r.error:
+            viol('the run completes', tag, '%s (%s)' % (r.error, r.stage), 'a written file')
+            continue
+        judge_written(chk, viol, tag, 4, rural, parse(r.file), r.model, 8 + 24 * U1.doy0(month, day), 24 * nd)
+    chk.direct('moisture of hour n on rural row n for every accepted time step (fractional dtsim, long windows)',
+               counts['n'], counts['n'],
+               'dtsim = 112.5 (11 days), 7.5, 22.5 (2 days), 12.5, 0.5 and the float spelling 300.0 (thorough: also 37.5, '
+               '56.25, 2.5, 1800.5, 187.5, 20 days): the package may cut, refuse or accept them; every value it accepts is '
+               'run over a window long enough for a truncated step to add up to whole hours - physics stubbed from outside, '
+               'the loop, the hourly records with the real psychrometrics and write_epw at epw_precision 4 real - and '
+               'judged like every simulated window: the humidity of record n is the humidity ratio of rural row n and the '
+               'written (T, RH, P) of that row imply it',
+               mismatches=counts['bad'], branches=br3)
 
 
 def run(chk):
@@ -906,6 +1061,7 @@ def run(chk):
                'bulb ramps through 0 C, written with 2-3 decimals'
                % (wtxt,),
                mismatches=totbad, branches={'records': tot, 'windows': len(windows)})
+    circumstance_runs(chk)
     chk.assumptions.append(
         'C09: libm exp/log/pow are interpreted by Real.exp/Real.log/rpow in the theorems and by the '
         'shared rational stubs in the exact tie; IEEE rounding only enters the float oracles '
@@ -928,7 +1084,9 @@ def replay(chk, path):
     with open(path) as f:
         v = json.load(f)
     case = v.get('case') or {}
-    if isinstance(case, dict) and 'record' in case:
+    if isinstance(case, dict) and ('circumstance' in case or 'dtsim' in case):
+        circumstance_runs(chk)          # the circumstance / time-step families are re-explored (same seed)
+    elif isinstance(case, dict) and 'record' in case:
         prm = next((q for q in (SGP_PARAM, TORONTO_PARAM) if q[-1] == case.get('param')), SGP_PARAM)
         epw = next((q for q in [SGP_EPW] + OTHER_EPW if q[-1] == case.get('epw')), SGP_EPW)
         simulate_and_check(chk, case['epw_precision'], case['month'], case['day'], case['nday'],
